@@ -68,7 +68,7 @@ func (f *Each) Call(s *slip.Scope, args slip.List, depth int) (result slip.Objec
 
 	senParseReader(r, func(j any) bool {
 		bg := flavor.MakeInstance().(*flavors.Instance)
-		bg.Any = j
+		bg.Any = fixNumbers(j)
 		_ = caller.Call(s, slip.List{bg}, depth)
 		return false
 	})
